@@ -136,3 +136,132 @@ func VerifH_GetAtRevision() {
 	verifrt.Assert(gotRev == uint64(want), "reported revision is the absolute one")
 	verifrt.Reach("served")
 }
+
+// verifRef is a store.ValueRef served by the History stub below.
+type verifRef struct {
+	tx, hc  uint64
+	val     []byte
+	expired bool
+	md      *store.KVMetadata
+}
+
+func (r *verifRef) Resolve() ([]byte, error) {
+	if r.expired {
+		return nil, store.ErrExpiredEntry
+	}
+	return r.val, nil
+}
+func (r *verifRef) Tx() uint64                     { return r.tx }
+func (r *verifRef) HC() uint64                     { return r.hc }
+func (r *verifRef) TxMetadata() *store.TxMetadata  { return nil }
+func (r *verifRef) KVMetadata() *store.KVMetadata  { return r.md }
+func (r *verifRef) HVal() [32]byte                 { return [32]byte{} }
+func (r *verifRef) Len() uint32                    { return uint32(len(r.val)) }
+func (r *verifRef) VOff() int64                    { return 0 }
+
+// VerifH_HistoryPages: the History RPC of a database. The key has hcount versions (symbolic
+// increasing tx ids, symbolic one-byte values stored with the plain-value prefix, the oldest one
+// possibly expired); the request (offset, limit, desc, SinceTx) is symbolic. The real db.History
+// waits for indexing up to SinceTx / the committed frontier before reading, refuses limits above
+// the maximum result size and SinceTx beyond the frontier, and returns exactly the requested page:
+// for each entry the tx id, the revision number of that version, the key asked for and the stored
+// value without its prefix (or the expired flag).
+func VerifH_HistoryPages() {
+	hcount := verifrt.Param("hcount")
+	maxRes := 3
+	refs := make([]*verifRef, hcount)
+	for i := range refs {
+		refs[i] = &verifRef{tx: verifrt.U64("tx"), hc: uint64(i + 1), val: []byte{PlainValuePrefix, verifrt.Byte("val")}}
+		if i > 0 {
+			verifrt.Assume(refs[i].tx > refs[i-1].tx)
+		}
+	}
+	if verifrt.Bool("oldestExpired") {
+		refs[0].expired = true
+	}
+	frontier := verifrt.U64("frontier")
+	var waited []uint64
+	verifrt.Stub("(*embedded/store.ImmuStore).CommittedAlh", func(s *store.ImmuStore) (uint64, [32]byte) { return frontier, [32]byte{} })
+	verifrt.Stub("(*pkg/database.db).WaitForIndexingUpto", func(d *db, ctx context.Context, txID uint64) error {
+		waited = append(waited, txID)
+		return nil
+	})
+	reads := 0
+	var askedLimit int
+	verifrt.Stub("(*embedded/store.ImmuStore).History", func(s *store.ImmuStore, key []byte, offset uint64, desc bool, limit int) ([]store.ValueRef, uint64, error) {
+		reads++
+		askedLimit = limit
+		verifrt.Assert(len(waited) == 1, "the index is read only after the wait")
+		if offset == uint64(hcount) {
+			return nil, 0, store.ErrNoMoreEntries
+		}
+		if offset > uint64(hcount) {
+			return nil, 0, store.ErrOffsetOutOfRange
+		}
+		var out []store.ValueRef
+		for k := 0; k < hcount && len(out) < limit; k++ {
+			if uint64(k) < offset {
+				continue
+			}
+			r := k
+			if desc {
+				r = hcount - 1 - k
+			}
+			out = append(out, refs[r])
+		}
+		return out, uint64(hcount), nil
+	})
+	d := &db{st: &store.ImmuStore{}, maxResultSize: maxRes}
+	req := &schema.HistoryRequest{Key: []byte{7}, Offset: verifrt.U64("offset"), Limit: int32(verifrt.Byte("limit") % 6), Desc: verifrt.Bool("desc"), SinceTx: verifrt.U64("sinceTx")}
+	verifrt.Assume(req.Offset <= uint64(hcount)+1)
+	list, err := d.History(context.Background(), req)
+	if int(req.Limit) > maxRes || req.SinceTx > frontier {
+		verifrt.Assert(err != nil && reads == 0, "oversized limits and SinceTx beyond the frontier are refused before reading")
+		verifrt.Reach("refused")
+		return
+	}
+	if req.Offset == uint64(hcount) {
+		verifrt.Assert(err != nil, "a page starting at the end of the history is reported")
+		verifrt.Reach("no more entries")
+		return
+	}
+	verifrt.Assert(err == nil && reads == 1, "history served")
+	want := req.SinceTx
+	if want == 0 {
+		want = frontier
+	}
+	verifrt.Assert(len(waited) == 1 && waited[0] == want, "waited for SinceTx, or for everything committed at call time")
+	lim := int(req.Limit)
+	if lim == 0 {
+		lim = maxRes
+	}
+	verifrt.Assert(askedLimit == lim, "limit 0 means the maximum result size")
+	n := 0
+	if req.Offset < uint64(hcount) {
+		n = hcount - int(req.Offset)
+		if n > lim {
+			n = lim
+		}
+	}
+	verifrt.Assert(len(list.Entries) == n, "page length")
+	for j := 0; j < n && j < len(list.Entries); j++ {
+		k := int(req.Offset) + j
+		r := k
+		if req.Desc {
+			r = hcount - 1 - k
+		}
+		for q := 0; q < hcount; q++ {
+			if q == r {
+				e := list.Entries[j]
+				verifrt.Assert(e.Tx == refs[q].tx && e.Revision == uint64(q+1), "entry carries the tx id and revision of its version")
+				verifrt.Assert(len(e.Key) == 1 && e.Key[0] == 7, "entry carries the key asked for")
+				if refs[q].expired {
+					verifrt.Assert(e.Expired && len(e.Value) == 0, "an expired version is flagged, without value")
+				} else {
+					verifrt.Assert(!e.Expired && len(e.Value) == 1 && e.Value[0] == refs[q].val[1], "value without the storage prefix")
+				}
+			}
+		}
+	}
+	verifrt.Reach("page returned")
+}
